@@ -53,6 +53,9 @@ static std::vector<MDef> mssm_defects() {
    // tachyons in monitored sectors
    add("smuon-tachyon", TACHYON, [](CppM& m, const gen::MssmPoint& p) { m.set_me2(1, 1, -4 * p.me[1] * p.me[1]); }, [](CM* h, const gen::MssmPoint& p) { gm2calc_mssmnofv_set_me2(h, 1, 1, -4 * p.me[1] * p.me[1]); });
    add("sneutrino-tachyon", TACHYON, [](CppM& m, const gen::MssmPoint& p) { m.set_ml2(1, 1, -4 * p.ml[1] * p.ml[1]); }, [](CM* h, const gen::MssmPoint& p) { gm2calc_mssmnofv_set_ml2(h, 1, 1, -4 * p.ml[1] * p.ml[1]); });
+   // a tachyon through the D-term alone: 0 < ml2(1,1) < MZ^2 |cos 2beta| / 2 makes the muon sneutrino tachyonic while both smuons stay healthy and no soft mass is negative
+   add("sneutrino-tachyon(D-term-only)", TACHYON, [](CppM& m, const gen::MssmPoint& p) { m.set_ml2(1, 1, 0.125 * 91.1876 * 91.1876 * (p.tb * p.tb - 1) / (p.tb * p.tb + 1)); },
+       [](CM* h, const gen::MssmPoint& p) { gm2calc_mssmnofv_set_ml2(h, 1, 1, 0.125 * 91.1876 * 91.1876 * (p.tb * p.tb - 1) / (p.tb * p.tb + 1)); });
    add("stau-tachyon", TACHYON, [](CppM& m, const gen::MssmPoint& p) { m.set_me2(2, 2, -4 * p.me[2] * p.me[2]); }, [](CM* h, const gen::MssmPoint& p) { gm2calc_mssmnofv_set_me2(h, 2, 2, -4 * p.me[2] * p.me[2]); });
    add("stop-tachyon", TACHYON, [](CppM& m, const gen::MssmPoint& p) { m.set_mu2(2, 2, -4 * p.mU[2] * p.mU[2]); }, [](CM* h, const gen::MssmPoint& p) { gm2calc_mssmnofv_set_mu2(h, 2, 2, -4 * p.mU[2] * p.mU[2]); });
    add("sbottom-tachyon", TACHYON, [](CppM& m, const gen::MssmPoint& p) { m.set_md2(2, 2, -4 * p.mD[2] * p.mD[2]); }, [](CM* h, const gen::MssmPoint& p) { gm2calc_mssmnofv_set_md2(h, 2, 2, -4 * p.mD[2] * p.mD[2]); });
